@@ -40,6 +40,17 @@ type Rq struct {
 	Accept string `json:"accept"`
 	// Panic: the handler that finally answers panics
 	Panic bool `json:"panic,omitempty"`
+	// Raw: the request target was written with a percent-escape (URL.RawPath is set); whatever a rejecting
+	// matcher did to the URL, the escaped spelling is part of "the request path as it was"
+	Raw bool `json:"raw,omitempty"`
+}
+
+// rawOf spells the last byte of a path as a percent-escape.
+func rawOf(path string) string {
+	if path == "" {
+		return ""
+	}
+	return fmt.Sprintf("%s%%%02X", path[:len(path)-1], path[len(path)-1])
 }
 
 type Case struct {
@@ -145,6 +156,7 @@ func gen(t *rapid.T) Case {
 			Host:   rapid.SampledFrom([]string{"a.com", "q.b.com", "c.com", "A.COM:80", "d.com", "", "q.b.net", "q.b.org", "x.b.com.cn"}).Draw(t, "host"),
 			Accept: rapid.SampledFrom([]string{"a/b; version=v1", "", "a/b; version=v9", "a/b; version=v2", "junk;;"}).Draw(t, "accept"),
 			Panic:  rapid.IntRange(0, 5).Draw(t, "panic") == 0,
+			Raw:    rapid.IntRange(0, 2).Draw(t, "raw") == 0,
 		})
 	}
 	return c
@@ -390,7 +402,11 @@ func check(c Case, st *rig.Stats) error {
 				panicAt = "base"
 				classes = append(classes, "answering-handler-panics")
 			}
-			o := rig.Serve(g, rig.Req{Method: q.Method, Path: q.Path, Host: q.Host, Header: hdr, PanicAt: panicAt, PanicWith: "c13-boom"})
+			raw := ""
+			if q.Raw {
+				raw = rawOf(q.Path)
+			}
+			o := rig.Serve(g, rig.Req{Method: q.Method, Path: q.Path, RawPath: raw, Host: q.Host, Header: hdr, PanicAt: panicAt, PanicWith: "c13-boom"})
 			if o.Panicked && !q.Panic {
 				return rig.Violf("panic", "%s panicked: %v", where, o.PanicVal)
 			}
@@ -413,8 +429,8 @@ func check(c Case, st *rig.Stats) error {
 				if len(o.Params) != 0 {
 					return rig.Violf("group-not-found-params", "%s: not-found handler saw params %v", where, o.Params)
 				}
-				if o.URLPath != q.Path {
-					return rig.Violf("rejections-left-a-trace", "%s: every matcher rejected but the not-found handler saw URL.Path %q", where, o.URLPath)
+				if o.URLPath != q.Path || o.URLRawPath != raw {
+					return rig.Violf("rejections-left-a-trace", "%s: every matcher rejected but the not-found handler saw URL.Path %q, RawPath %q (sent: %q, %q)", where, o.URLPath, o.URLRawPath, q.Path, raw)
 				}
 				continue
 			}
@@ -435,6 +451,8 @@ func check(c Case, st *rig.Stats) error {
 			switch {
 			case o.RouterName != win.name:
 				return rig.Violf("wrong-router", "%s: served by router %q, the first accepting router is %q (matcher %+v)", where, o.RouterName, win.name, win.spec)
+			case ws.path == q.Path && o.URLRawPath != raw:
+				return rig.Violf("rejections-left-a-trace", "%s: the accepting matcher of router %q does not touch the path, yet the router saw RawPath %q (sent %q): an earlier, rejecting matcher left it behind", where, win.name, o.URLRawPath, raw)
 			case o.URLPath != ws.path:
 				return rig.Violf("wrong-path", "%s: router %q saw URL.Path %q, its matcher produces %q", where, win.name, o.URLPath, ws.path)
 			case o.BaseID != alone.BaseID || o.Pattern != alone.Pattern || o.EffStatus() != alone.EffStatus():
